@@ -1634,3 +1634,60 @@ Proof.
   - split; discriminate.
   - subst. split; intros E; inversion E; reflexivity.
 Qed.
+
+(* ===== Part 7: map, from_points ===================================================================== *)
+Lemma map_loop_ok f a acc l :
+  Forall in_display l ->
+  exists acc', map_loop f a acc l = Ok acc' /\
+    forall q, gp acc' q = if existsb (point_eqb q) l then option_map f (gp a q) else gp acc q.
+Proof.
+  revert acc; induction l as [|p t IH]; intros acc Hl; cbn [map_loop existsb].
+  - exists acc. split; reflexivity.
+  - inversion Hl as [|? ? Hp Ht]; subst. rewrite !get_pixel_gp. cbn [bind].
+    rewrite set_pixel_unchecked_ok by assumption. cbn [bind].
+    destruct (IH (put acc p (option_map f (gp a p))) Ht) as [acc' [E Hg]].
+    exists acc'. split; [assumption|]. intros q. rewrite Hg, gp_put by assumption.
+    destruct (existsb (point_eqb q) t); [rewrite orb_true_r; reflexivity|]. rewrite orb_false_r.
+    destruct (point_eqb q p) eqn:Eq; [apply point_eqb_spec in Eq; subst; reflexivity|reflexivity].
+Qed.
+
+(* map applies the function to every touched cell and touches no other *)
+Theorem map_display_spec f a :
+  exists t, map_display f a = Ok t /\
+    forall p, get_pixel t p = match get_pixel a p with Ok c => Ok (option_map f c) | Panic k => Panic k end.
+Proof.
+  unfold map_display. destruct (map_loop_ok f a new_display _ points_bb_in_display) as [t [E Hg]].
+  exists t. split; [assumption|]. intros p. rewrite !get_pixel_gp, Hg, existsb_points_bb, gp_new. f_equal.
+  destruct (in_displayb p) eqn:Ep; [reflexivity|].
+  rewrite gp_outside by (apply in_displayb_false, Ep). reflexivity.
+Qed.
+
+Lemma set_pixels_spec l : forall d v,
+  set_pixels d l v =
+    if forallb in_displayb l then Ok (fold_left (fun acc p => put acc p v) l d) else Panic PSetPixel.
+Proof.
+  induction l as [|p t IH]; intros d v; cbn [set_pixels forallb fold_left]; [reflexivity|].
+  rewrite set_pixel_spec. destruct (in_displayb p); cbn [bind andb]; [apply IH|reflexivity].
+Qed.
+
+Lemma gp_fold_put l : forall d v q,
+  Forall in_display l ->
+  gp (fold_left (fun acc p => put acc p v) l d) q = if existsb (point_eqb q) l then v else gp d q.
+Proof.
+  induction l as [|p t IH]; intros d v q Hl; cbn [fold_left existsb]; [reflexivity|].
+  inversion Hl as [|? ? Hp Ht]; subst. rewrite IH by assumption. rewrite gp_put by assumption.
+  destruct (existsb (point_eqb q) t); [rewrite orb_true_r; reflexivity|]. rewrite orb_false_r. reflexivity.
+Qed.
+
+(* from_points: panics (set_pixel's assertion) exactly when some point is outside the display; otherwise exactly the
+   listed points hold the colour *)
+Theorem from_points_spec l c :
+  (forallb in_displayb l = false -> from_points l c = Panic PSetPixel) /\
+  (forallb in_displayb l = true ->
+     exists d, from_points l c = Ok d /\
+       forall p, get_pixel d p = Ok (if existsb (point_eqb p) l then Some c else None)).
+Proof.
+  unfold from_points. rewrite set_pixels_spec. split; intros H; rewrite H; [reflexivity|].
+  eexists. split; [reflexivity|]. intros p. rewrite get_pixel_gp, gp_fold_put, gp_new; [reflexivity|].
+  apply Forall_forall. intros q Hq. rewrite forallb_forall in H. apply in_displayb_spec, H, Hq.
+Qed.
